@@ -471,12 +471,11 @@ def run(ctx):
         "lambda_s <= lambda_p is an error": "proved for every configuration (C17_rule_signal_le_pump: the entry validation read off the source by the generator) + validated in every auto/explicit combination",
         "an explicit poling period of 0 is an error": "proved (C17_rule_bad_period) + validated",
         "auto poling period that does not fit is an error": "proved (rule on the simplex result) + validated with the replayed search",
-        "never panics": "proved PER CONFIGURATION under searches_defined_at (the oracle calls this configuration makes are defined); for the composed "
-                        "model under three named definedness hypotheses (no total internal reflection when the crystal angle is automatic; every "
-                        "candidate of the angle / period search has a defined cost) which are FALSE on the known findings F7b, F7f, F7h: there the "
-                        "composed model panics like the implementation (C17_tir_panics_composed, Findings/C17_F7b_composed.v); the only panic "
-                        "site left in the model is the search's unwrap; panic sites scanned over the whole call graph; F7g (unevaluable crystal "
-                        "expression) is outside the model and found by the stream",
+        "never panics": "proved on the repaired code (C17_repairs_now pins the four repair flags): C17_no_panic_full assumes only that the Snell "
+                        "inverse answers and that the crystal-angle search answers for a signal whose external angle exists; a signal beyond total "
+                        "internal reflection, an external angle >= 90 deg, a period search that finds nothing and an unevaluable crystal expression "
+                        "are ERRORS (rules 6, 7, 4', S5 rule_bad_crystal); composed model: C17_no_panic_composed_full; the panic sites are scanned "
+                        "over the whole call graph; reverting a repair gives a concrete-input violation",
         "all derived values finite / period infinite only when poling off": "proved_partial (per configuration: idler angle defined, index along z not 0, unpoled mismatch not exactly 0) + validated incl. the three refractive indices",
         "spectrum/rate/HOM calls finite": "validated_only (in-window 3x3 / 5x5 grids, three integrators, on constructed setups; normalised spectrum included; known: F7d, F7e)"}
     return finish(ctx, assumptions=[
